@@ -222,6 +222,29 @@ func runC16History(c *Ctx, hi int) {
 			}
 		}
 	}
+	// how the FIRST key of a server came to be: installed through SetSessionTicketKeys (above), given in the
+	// SessionTicketKey field, or generated by the library on first use. Once SetSessionTicketKeys replaces it, a ticket made
+	// under it is as dead as one under any other retired key.
+	if !farm {
+		for si, sv := range servers {
+			switch (hi + si) % 6 {
+			case 1: // the SessionTicketKey field
+				nc := sv.cfg.Clone()
+				var k [32]byte
+				r.Fill(k[:])
+				fresh := &gmtls.Config{Time: nc.Time, Rand: nc.Rand, ClientCAs: nc.ClientCAs, KeyLogWriter: nc.KeyLogWriter, GMSupport: nc.GMSupport, Certificates: nc.Certificates,
+					CipherSuites: nc.CipherSuites, MinVersion: nc.MinVersion, MaxVersion: nc.MaxVersion, SessionTicketKey: k}
+				sv.cfg, sv.keys = fresh, [][32]byte{k}
+				rep.Count("servers_whose_first_ticket_key_is_the_SessionTicketKey_field", 1)
+			case 3: // generated by the library
+				nc := sv.cfg.Clone()
+				fresh := &gmtls.Config{Time: nc.Time, Rand: nc.Rand, ClientCAs: nc.ClientCAs, KeyLogWriter: nc.KeyLogWriter, GMSupport: nc.GMSupport, Certificates: nc.Certificates,
+					CipherSuites: nc.CipherSuites, MinVersion: nc.MinVersion, MaxVersion: nc.MaxVersion}
+				sv.cfg, sv.keys = fresh, [][32]byte{c16AutoKey}
+				rep.Count("servers_whose_first_ticket_key_is_generated_by_the_library", 1)
+			}
+		}
+	}
 	auths := []gmtls.ClientAuthType{gmtls.NoClientCert, gmtls.RequestClientCert, gmtls.RequireAnyClientCert, gmtls.RequireAndVerifyClientCert, gmtls.VerifyClientCertIfGiven}
 	needsCert := func(a gmtls.ClientAuthType) bool {
 		return a == gmtls.RequireAnyClientCert || a == gmtls.RequireAndVerifyClientCert
@@ -261,12 +284,14 @@ func runC16History(c *Ctx, hi int) {
 			s.gen++
 			nc := s.cfg.Clone()
 			f(nc)
-			nc.SetSessionTicketKeys(s.keys)
+			if len(c16InstallableKeys(s.keys)) == len(s.keys) {
+				nc.SetSessionTicketKeys(s.keys)
+			} // else: the copy keeps the library-generated key of the original (Clone carries it over)
 			s.cfg = nc
 		}
 		switch op.kind {
 		case "rotate-keep-old":
-			s.keys = append([][32]byte{newKey()}, s.keys...)
+			s.keys = append([][32]byte{newKey()}, c16InstallableKeys(s.keys)...)
 			s.cfg.SetSessionTicketKeys(s.keys)
 			ops = append(ops, "rotate-keep-old("+s.name+")")
 			continue
@@ -277,7 +302,7 @@ func runC16History(c *Ctx, hi int) {
 			continue
 		case "drop-old-keys":
 			if len(s.keys) > 1 {
-				s.keys = s.keys[:1]
+				s.keys = c16InstallableKeys(s.keys[:1])
 				s.cfg.SetSessionTicketKeys(s.keys)
 				ops = append(ops, "drop-old-keys("+s.name+")")
 			}
@@ -722,4 +747,18 @@ func runC16Tamper(c *Ctx) {
 			}
 		}
 	}
+}
+
+// c16AutoKey stands for "the key the library generated itself" in the model's key lists: its bytes are unknown to the
+// harness, so it can be compared (a ticket made under it, a server still holding it) but never installed.
+var c16AutoKey = [32]byte{0xA0, 0x70, 0xFE, 0xED}
+
+func c16InstallableKeys(ks [][32]byte) [][32]byte {
+	var out [][32]byte
+	for _, k := range ks {
+		if k != c16AutoKey {
+			out = append(out, k)
+		}
+	}
+	return out
 }
